@@ -1,7 +1,7 @@
 (* C04 -- non-vacuity: concrete reachable states meet the hypotheses of the theorems. *)
 From Coq Require Import List Arith Lia Bool.
 From Verif.lib Require Import FinSet.
-From Verif.C04 Require Import Model Proofs ProofsFun.
+From Verif.C04 Require Import Model Proofs ProofsFun ProofsMesh ProofsQuery ProofsClosure.
 Import ListNotations.
 
 (* 2-D, degrees (2,1), 3x2 coarse cells, disparity 1; marks on two levels in one call,
@@ -76,7 +76,7 @@ Proof. vm_compute. reflexivity. Qed.
 Example ex_good : good ex_st.
 Proof. apply good_run; [apply good_init; exact ex_disp | exact ex_ops_valid]. Qed.
 
-(* TEST (not a proof of hier_ok): the hypothesis of activity_characterisation_partial evaluated
+(* TEST: the conclusion of tables_consistent evaluated
    on the cells and functions of levels 0..2 of the example hierarchy *)
 Definition mesh_ok_test (ms : tpmesh) : bool :=
   forallb (fun f => negb (is_empty (support1 ms f)) && subset (support1 ms f) (tp_cells ms)) (tp_functions ms)
@@ -104,3 +104,38 @@ Proof.
   - intros k Hk. assert (E : numlevels ex_st = 3) by (vm_compute; reflexivity). rewrite E in Hk.
     destruct k as [|[|[|k]]]; try lia; [reflexivity | destruct k; reflexivity].
 Qed.
+
+(* hypothesis of tables_consistent / activity_characterisation / the query theorems: valid axes *)
+Example ex_axes_ok : Forall axis_ok ex_axes.
+Proof.
+  assert (G : forall a, forallb (fun m => m <=? ax_p a + 1) (ax_mults a) && (1 <=? ax_numdofs a) = true -> axis_ok a).
+  { intros a E. apply andb_true_iff in E. destruct E as [E1 E2]. split.
+    - rewrite forallb_forall in E1. apply Forall_forall. intros m Hm. apply Nat.leb_le. auto.
+    - apply Nat.leb_le. auto. }
+  constructor; [apply G; vm_compute; reflexivity|]. constructor; [apply G; vm_compute; reflexivity|]. constructor.
+Qed.
+
+(* hypotheses of incidence_spec: indices inside a non-trivial matrix (46 rows, 36 columns) *)
+Example ex_incidence_hyp : 5 < length (active_functions_flat ex_st) /\ 30 < length (active_cells_flat ex_st).
+Proof. vm_compute. lia. Qed.
+
+(* hypotheses of cell_function_queries_agree: an active function of level 1 and an active cell of
+   level 2 on which it does not vanish (entry = 1), and one on which it vanishes *)
+Example ex_query_hyp :
+  In [0;1] (AF ex_st 1) /\ In [0;0] (A ex_st 2) /\ 1 <= 2 /\ 2 < numlevels ex_st /\
+  incidence_entry ex_st (1, [0;1]) (2, [0;0]) = true /\ incidence_entry ex_st (1, [0;1]) (2, [10;6]) = false.
+Proof.
+  split; [by_mem|]. split; [by_mem|]. vm_compute. repeat split; (lia || reflexivity).
+Qed.
+
+(* hypothesis of disparity_admissible_partial_cells on the example (disparity 1, 3 levels: the
+   condition is not vacuous for the 16 active cells of level 2 and k = 0), via its executable form *)
+Example ex_cell_condition : cell_condition ex_axes (Some 1) ex_ops 1.
+Proof. apply cell_condition_b_sound. vm_compute. reflexivity. Qed.
+
+(* hypotheses of marking_closure_closed: finite disparity and a successful call *)
+Example ex_closure_hyp :
+  hs_disparity (hs_init ex_axes (Some 1)) = Some 1 /\
+  exists r, hs_refine (run (hs_init ex_axes (Some 1)) [Refine [(0, (CList, [[0;0]]))] false])
+                      [(1, (CList, [[1;1]]))] false = Ok r.
+Proof. split; [reflexivity|]. eexists. vm_compute. reflexivity. Qed.
